@@ -13,7 +13,8 @@
 (*      coded at the pinned commit, {"sort","objarr","pandas"} is the        *)
 (*      repaired scheme for which the laws are claimed (DESIGN 10: the spec *)
 (*      models the required behaviour, the implementation-shaped variant    *)
-(*      exists so that TLC exhibits where the coded scheme breaks);         *)
+(*      exists so that TLC exhibits where the coded scheme breaks; a third, *)
+(*      Repaired + "skiprange", is a wrong shortcut for RangeIndex labels); *)
 (*   3. the laws: KeyTotal, KeySound (equal keys only for Eq values),       *)
 (*      KeyComplete (Eq values have equal keys), both up to DontCare;       *)
 (*   4. calls of a memoized function (memoize.<locals>.wrapper): a call is  *)
@@ -60,9 +61,20 @@ NdArrayL(dt, shape, data, lay) == V("NdArray", dt, lay, <<Tuple(shape), Tuple(da
         \* lay = MEMORY LAYOUT, an encoder attribute (how the object is materialised), never part of the value:
         \*   0 C-contiguous   1 np.asfortranarray(a)   2 non-contiguous slice big[..., ::2]   3 transposed view b.T
 NdArray(dt, shape, data) == NdArrayL(dt, shape, data, 0)
-Series(name, index, data) == V("Series", name, 0, <<Tuple(index), Tuple(data)>>)
-DataFrame(cols, index, data) == V("DataFrame", "", 0, <<Tuple(cols), Tuple(index), Tuple(data)>>)
-        \* cols = sequence of Strs (unique); data = one Tuple of cell values per column, in column order
+SeriesR(name, index, data, rep) == V("Series", name, rep, <<Tuple(index), Tuple(data)>>)
+DataFrameR(cols, index, data, rep) == V("DataFrame", "", rep, <<Tuple(cols), Tuple(index), Tuple(data)>>)
+        \* cols = sequence of Strs or of Ints (unique); data = one Tuple of cell values per column, in column order
+        \* index = the ROW LABELS, whatever object carries them
+        \* rep = LABEL REPRESENTATION, an encoder attribute (how the axis object is materialised), never part of the
+        \*   value:  bit 1 (rep % 2): the row index is a pandas.RangeIndex(start, stop, step) instead of a materialised
+        \*   Index([...]);  bit 2 (rep \div 2, DataFrame only): the same for the columns.  A RangeIndex is what a
+        \*   frame built without an index has (RangeIndex(0, n, 1), the "default"), but ALSO what every slice of such
+        \*   a frame keeps: big.iloc[2:4] has RangeIndex(2, 4), big.iloc[0:4:2] has RangeIndex(0, 4, 2), big.iloc[::-1]
+        \*   has a negative step.  A RangeIndex is therefore not "the default index that carries no information".
+Series(name, index, data) == SeriesR(name, index, data, 0)
+DataFrame(cols, index, data) == DataFrameR(cols, index, data, 0)
+RowsAreRange(v) == v.n % 2 = 1                       \* isinstance(obj.index, pandas.RangeIndex)
+ColsAreRange(v) == v.t = "DataFrame" /\ v.n \div 2 = 1  \* isinstance(obj.columns, pandas.RangeIndex)
 Obj(cls, fields) == V("Obj", cls, 0, fields)      \* instance of an importable dataclass, fields in order
 Call(sig, args, kw) == V("Call", sig, 0, <<Tuple(args), Dict(kw)>>)
         \* one call f( *args, **kw) of a memoized function (section 4); sig names the signature of f;
@@ -96,8 +108,10 @@ SortedSeq(S) == IF S = {} THEN <<>> ELSE <<MinOf(S)>> \o SortedSeq(S \ {MinOf(S)
 (* OrderedDict items, array data and shape, Series/DataFrame index, data    *)
 (* and column order; not for sets and plain mappings.  dtype, Series name,  *)
 (* class of an object are always significant.  Encoder attributes - the     *)
-(* insertion order of sets / frozensets / plain mappings and the memory      *)
-(* layout of an array - say how the Python object is built; Eq ignores them. *)
+(* insertion order of sets / frozensets / plain mappings, the memory layout  *)
+(* of an array and the representation of the labels of a pandas object       *)
+(* (RangeIndex or materialised Index) - say how the Python object is built;  *)
+(* Eq ignores them: the row labels themselves are compared, in order.        *)
 RECURSIVE Sim(_, _, _)
 Sim(v, w, L) ==
     LET sub(q, r)  == \A x \in Elems(q) : \E y \in Elems(r) : Sim(x, y, L)
@@ -111,6 +125,7 @@ Sim(v, w, L) ==
               [] v.t = "Deque"        -> (L \/ v.n = w.n) /\ same(v.a, w.a)
               [] v.t = "PyArray"      -> (L \/ v.s = w.s) /\ same(v.a, w.a)
               [] v.t = "NdArray"      -> v.s = w.s /\ same(v.a, w.a)          \* memory layout (n) is not the value
+              [] v.t \in {"Series", "DataFrame"} -> v.s = w.s /\ same(v.a, w.a)  \* nor is the label representation (n)
               [] OTHER                -> v.s = w.s /\ v.n = w.n /\ same(v.a, w.a)
 
 Eq(v, w)      == Sim(v, w, FALSE)          \* THE ORACLE of C15
@@ -154,6 +169,10 @@ DontCare(v, w) == \/ PyEqual(v, w) /\ ~Eq(v, w)
 (* different under ==, array data fills the shape, pandas index and data have the same length.     *)
 RECURSIVE Prod(_)
 Prod(q) == IF q = <<>> THEN 1 ELSE Head(q).n * Prod(Tail(q))
+(* the labels a RangeIndex can carry: integers in arithmetic progression with a non-zero step (any start) *)
+IsRange(q) == /\ \A i \in DOMAIN q : q[i].t = "Int"
+              /\ Len(q) >= 2 => /\ q[2].n # q[1].n
+                                /\ \A i \in 1..(Len(q) - 1) : q[i + 1].n - q[i].n = q[2].n - q[1].n
 RECURSIVE WellFormed(_)
 WellFormed(v) ==
     LET distinct(q) == \A i, j \in DOMAIN q : i # j => ~PyEqual(q[i], q[j])
@@ -168,9 +187,14 @@ WellFormed(v) ==
                                     /\ v.n \in 0..3
                                     /\ v.n \in {1, 3} => Len(v.a[1].a) = 2 /\ \A d \in Elems(v.a[1].a) : d.n >= 2
                                     /\ v.n = 2 => Len(v.a[1].a) >= 1 /\ v.a[1].a[Len(v.a[1].a)].n >= 2
-            [] v.t = "Series"    -> Len(v.a[1].a) = Len(v.a[2].a)
+            [] v.t = "Series"    -> /\ Len(v.a[1].a) = Len(v.a[2].a)
+                                    /\ v.n \in 0..1
+                                    /\ RowsAreRange(v) => IsRange(v.a[1].a)
             [] v.t = "DataFrame" -> /\ Len(v.a[3].a) = Len(v.a[1].a)
                                     /\ distinct(v.a[1].a)
+                                    /\ v.n \in 0..3
+                                    /\ RowsAreRange(v) => IsRange(v.a[2].a)
+                                    /\ ColsAreRange(v) => IsRange(v.a[1].a)
                                     /\ \A c \in DOMAIN v.a[3].a : Len(v.a[3].a[c].a) = Len(v.a[2].a)
             [] OTHER -> TRUE
 
@@ -269,6 +293,8 @@ KeyVal(v, fx) ==
         items(p)  == KTuple([i \in DOMAIN p |-> item(p[i])])           \* _hashable_mapping
         sitems(p) == KSorted({item(pr) : pr \in Elems(p)})             \* _hashable_mapping(sort=True)
         raw(q)    == KTuple([i \in DOMAIN q |-> IF Hashable(q[i]) THEN AsIs(q[i]) ELSE KRaw(q[i])])
+        labels(q, isrange) ==                                          \* to_hashable(axis.tolist()); the variant
+            IF "skiprange" \in fx /\ isrange THEN KNone ELSE sub(List(q)) \*   "skiprange" stores None for a RangeIndex
     IN CASE v.t = "OrderedDict" -> Conv(v.t, items(v.a))
          [] v.t = "DefaultDict" -> Conv(v.t, KTuple(<<KType(v.s), sitems(v.a)>>))
          [] v.t = "Counter"     -> Conv(v.t, KSorted({KTuple(<<AsIs(pr.a[1]), AsIs(pr.a[2])>>) : pr \in Elems(v.a)}))
@@ -283,16 +309,23 @@ KeyVal(v, fx) ==
                                    IF "objarr" \in fx THEN subs(v.a[2].a) ELSE raw(v.a[2].a)>>))
          [] v.t = "Series"      ->                                     \* (name, to_hashable(to_dict()))
                 Conv(v.t, KTuple(<<KStr(v.s), sub(SeriesDict(v))>>
-                                 \o (IF "pandas" \in fx THEN <<sub(List(v.a[1].a)), sub(List(v.a[2].a))>> ELSE <<>>)))
+                                 \o (IF "pandas" \in fx THEN <<labels(v.a[1].a, RowsAreRange(v)), sub(List(v.a[2].a))>> ELSE <<>>)))
          [] v.t = "DataFrame"   ->                                     \* to_hashable(to_dict("list"))
                 KTuple(<<Marker, KType(v.t), sub(FrameDict(v))>>
-                       \o (IF "pandas" \in fx THEN <<KTuple(<<sub(List(v.a[1].a)), sub(List(v.a[2].a))>>)>> ELSE <<>>))
+                       \o (IF "pandas" \in fx THEN <<KTuple(<<labels(v.a[1].a, ColsAreRange(v)),
+                                                               labels(v.a[2].a, RowsAreRange(v))>>)>> ELSE <<>>))
          [] v.t = "Obj"         -> Conv(v.s, KPickle(v))               \* (m, tp, _cloudpickle_key(obj))
 
 AsCoded  == {}                                \* the scheme at the pinned commit
 Repaired == {"sort", "objarr", "pandas"}      \* sort: total, process-independent order of set members / mapping keys
                                               \* objarr: elements of object arrays are converted recursively
                                               \* pandas: index (with order), values and column order enter the key
+(* A plausible "optimisation" of the repaired scheme, NOT claimed: "a RangeIndex is the default index and carries no  *)
+(* information", so None is stored in place of its labels.  Wrong twice: frames with equal cells whose RangeIndexes    *)
+(* have another start / step get ONE key (KeySound; to_dict("list") does not hold the row labels), and a RangeIndex    *)
+(* and a materialised Index with the same labels get two (KeyComplete).  The variant exists so that TLC exhibits that  *)
+(* the laws have teeth on the universe of label representations.                                                      *)
+SkipRange == Repaired \cup {"skiprange"}
 
 ---------------------------------------------------------------------------
 (* 3. The laws (for a scheme fx, over whatever universe the instance supplies) *)
